@@ -127,6 +127,11 @@ def run_oracle(ck, fmt_keywords):
         r = f.get("replay", {})
         for s in ([r["src"]] if "src" in r else []) + list(r.get("srcs", [])):
             fixed.append(("oracle-known-replays", s))
+    # s-/f-strings that span lines: the text of an interpolation is written as it is, blanks before a line break included
+    for q in "sf":
+        for body in ["a \nb", "a\t\n b", " \n ", "x {c} \n{d}  \n", "SELECT \n  {a},  \n  {b} \nFROM t ", "\n\n", "a\n", " "]:
+            fixed.append(("oracle-interp-multiline", "from t\nselect {v = %s\"%s\"}\n" % (q, body)))
+            fixed.append(("oracle-interp-multiline", "let v = %s\"%s\"\n" % (q, body)))
     # the positions repaired by commits 95d15ad / 2a611aa / 1b7b9df / 328740d, every (position, form) pair
     fixed += [("oracle-restricted-positions", s) for s in G.restricted_position_sources()]
     streams += fixed
